@@ -634,6 +634,39 @@ func proposalCase(o *hx.Out, k int, r *prng.R) {
 		}
 		ntx = r.Range(0, 15)
 	}
+	// last of all (a refused block leaves its header behind on the replica): AddBlock's transaction loop on a block that
+	// is not a proposer's selection
+	if !many {
+		var fresh []*transaction.Transaction
+		for _, raw := range genRound(o, r, s, senders, committee, r.Range(4, 10), bind) {
+			t, _ := transaction.NewTransactionFromBytes(raw)
+			fresh = append(fresh, t)
+		}
+		// and one or two that name another of them in a Conflicts attribute, paying more or less than it
+		for i := r.Range(0, 2); i > 0 && len(fresh) > 0; i-- {
+			u := fresh[r.Intn(len(fresh))]
+			var ua *acct
+			for _, a := range senders {
+				if a.hash == u.Sender() {
+					ua = a
+				}
+			}
+			if ua == nil {
+				continue
+			}
+			v := s.newCand(r, []*acct{ua}, 0)
+			v.tx.SystemFee = 0
+			v.tx.ValidUntilBlock = A.bc.BlockHeight() + 3
+			v.tx.Attributes = []transaction.Attribute{{Type: transaction.ConflictsT, Value: &transaction.Conflicts{Hash: u.Hash()}}}
+			v.finish(0)
+			v.tx.NetworkFee = max(v.calc, u.NetworkFee+[]int64{1, 1000, 0, -1}[r.Intn(4)])
+			v.sign()
+			vt, _ := transaction.NewTransactionFromBytes(v.tx.Bytes())
+			fresh = append([]*transaction.Transaction{vt}, fresh...)
+			o.Count("ledger:with-conflicting-pair")
+		}
+		ledgerLine(o, k, r, s, A, B, nc, fresh)
+	}
 }
 
 // packSublistLines calls ApplyPolicyToTxSet on random contiguous sub-lists of the pool (a running chain cannot change
@@ -921,5 +954,99 @@ func foreignConflict(o *hx.Out, r *prng.R, k int, s *scen, A *world, senders []*
 	if kind == "stranger" && verdict != "ok" {
 		o.Fail("valid-rejected", k, "a Conflicts attribute of an account that does not sign t makes VerifyTx say %s", verdict)
 	}
+	return true
+}
+
+// ledgerLine: a block that is NOT the proposer's selection — a random handful of this round's transactions, each
+// admissible on its own, in random order, so that two of them may conflict or overdraw a sender together — is given
+// to the replica over the wire. AddBlock's transaction loop (scratch pool, count check) is compared with Pack.ledgerLoop.
+// If the replica accepts it, the proposer has to accept it too (both chains stay in step).
+func ledgerLine(o *hx.Out, k int, r *prng.R, s *scen, A, B *world, nc *netCfg, roundTxs []*transaction.Transaction) bool {
+	var cands []*transaction.Transaction
+	for _, t := range roundTxs {
+		if len(cands) >= 10 {
+			break
+		}
+		if B.bc.VerifyTx(t) == nil {
+			cands = append(cands, t)
+		}
+	}
+	if len(cands) < 2 {
+		return true
+	}
+	for i := range cands {
+		j := i + r.Intn(len(cands)-i)
+		cands[i], cands[j] = cands[j], cands[i]
+	}
+	sub := cands[:r.Range(2, min(6, len(cands)))]
+	// what mempool.Add reads of them
+	hid := map[util.Uint256]int{}
+	id := func(h util.Uint256) int {
+		if v, ok := hid[h]; ok {
+			return v
+		}
+		hid[h] = len(hid) + 1
+		return hid[h]
+	}
+	type payer struct{ p, s util.Uint160 }
+	var payers []payer
+	seen := map[payer]bool{}
+	var body strings.Builder
+	for _, t := range sub {
+		q := payer{p: t.Sender()}
+		if t.Sender() == nativehashes.Notary && len(t.Signers) > 1 {
+			q.s = t.Signers[1].Account
+		}
+		if !seen[q] {
+			seen[q] = true
+			payers = append(payers, q)
+		}
+		fmt.Fprintf(&body, " %d %d %d %d", id(t.Hash()), t.SystemFee, t.NetworkFee, len(t.Signers))
+		for _, sg := range t.Signers {
+			fmt.Fprintf(&body, " %d", s.id(sg.Account))
+		}
+		cf := t.GetAttributes(transaction.ConflictsT)
+		fmt.Fprintf(&body, " %d", len(cf))
+		for _, a := range cf {
+			fmt.Fprintf(&body, " %d", id(a.Value.(*transaction.Conflicts).Hash))
+		}
+		body.WriteString(" -")
+	}
+	var head strings.Builder
+	fmt.Fprintf(&head, "ledger %d %d", s.id(nativehashes.Notary), len(payers))
+	for _, q := range payers {
+		sid := 0
+		if q.s != (util.Uint160{}) {
+			sid = s.id(q.s)
+		}
+		fmt.Fprintf(&head, " %d %d %s", s.id(q.p), sid, B.bc.GetUtilityTokenBalance(q.p, q.s).String())
+	}
+	fmt.Fprintf(&head, " %d", len(sub))
+	blk := consensusBlock(A, nc, slices.Clone(sub), r)
+	err := relay(blk, B.bc)
+	obs := "ok"
+	if err != nil {
+		obs = "other:" + err.Error()
+		for i, t := range sub {
+			if strings.Contains(err.Error(), "transaction "+t.Hash().StringLE()+" failed to verify") {
+				switch {
+				case strings.Contains(err.Error(), "conflicts with another transaction of the block"):
+					obs = fmt.Sprintf("conflict %d", i)
+				case errors.Is(err, core.ErrMemPoolConflict):
+					obs = fmt.Sprintf("tx %d err:pool-conflict", i)
+				case errors.Is(err, core.ErrInsufficientFunds):
+					obs = fmt.Sprintf("tx %d err:insufficient-funds", i)
+				case errors.Is(err, core.ErrHasConflicts) && strings.Contains(err.Error(), "mempool:"):
+					obs = fmt.Sprintf("tx %d err:pool-conflicts-attr", i)
+				case errors.Is(err, core.ErrAlreadyInPool):
+					obs = fmt.Sprintf("tx %d err:pool-dup", i)
+				default:
+					obs = fmt.Sprintf("tx %d %s", i, classify(errors.Unwrap(err)))
+				}
+			}
+		}
+	}
+	o.Line(head.String()+body.String(), obs)
+	o.Count("ledger:" + strings.SplitN(strings.SplitN(obs, ":", 2)[0], " ", 2)[0])
 	return true
 }
